@@ -376,7 +376,7 @@ done:
 						for _, k := range keys {
 							ev := rv.MapIndex(k)
 							if nv, changed := modifier(ev.Interface()); changed {
-								rv.SetMapIndex(k, reflect.ValueOf(nv))
+								rv.SetMapIndex(k, mapElemValue(rv, nv))
 								if one && changed {
 									break done
 								}
@@ -806,7 +806,7 @@ done:
 							vv := ev.Interface()
 							if tf.matchWithRoot(vv, data) {
 								if nv, changed := modifier(vv); changed {
-									rv.SetMapIndex(k, reflect.ValueOf(nv))
+									rv.SetMapIndex(k, mapElemValue(rv, nv))
 									if one && changed {
 										break done
 									}
@@ -953,4 +953,14 @@ func descentAddValue(stack []any, v any, fi fragIndex) []any {
 		}
 	}
 	return stack
+}
+
+// mapElemValue returns the reflect value to store in the map rv for v. A nil v
+// is stored as the zero value of the map's element type. An invalid
+// reflect.Value would delete the member instead.
+func mapElemValue(rv reflect.Value, v any) reflect.Value {
+	if v == nil {
+		return reflect.Zero(rv.Type().Elem())
+	}
+	return reflect.ValueOf(v)
 }
